@@ -165,7 +165,9 @@ fn run_entry<C: Context<NumericTypes = DefaultNumericTypes> + ContextWithMutable
             let mut it = e.split(' ');
             let opname = it.next().unwrap_or("");
             let k: usize = it.next().and_then(|x| x.parse().ok()).unwrap_or(0);
-            let child_kind = it.next().unwrap_or("Const");
+            let child_kind_full = it.next().unwrap_or("Const");
+            // "VariableIdentifierRead:<mask>": child i reads the unbound variable `unbound<i>` where the mask has a 1 (a failing leaf child)
+            let (child_kind, mask) = child_kind_full.split_once(':').unwrap_or((child_kind_full, ""));
             let op: Operator = match opname {
                 "RootNode" => Operator::RootNode, "Add" => Operator::Add, "Sub" => Operator::Sub, "Neg" => Operator::Neg, "Mul" => Operator::Mul,
                 "Div" => Operator::Div, "Mod" => Operator::Mod, "Exp" => Operator::Exp, "Eq" => Operator::Eq, "Neq" => Operator::Neq, "Gt" => Operator::Gt,
@@ -193,7 +195,8 @@ fn run_entry<C: Context<NumericTypes = DefaultNumericTypes> + ContextWithMutable
                         *child.operator_mut() = Operator::VariableIdentifierWrite { identifier: format!("v{}", i) };
                     },
                     "VariableIdentifierRead" => {
-                        *child.operator_mut() = Operator::VariableIdentifierRead { identifier: "x".to_string() };
+                        let unbound = mask.as_bytes().get(i) == Some(&b'1');
+                        *child.operator_mut() = Operator::VariableIdentifierRead { identifier: if unbound { format!("unbound{}", i) } else { "x".to_string() } };
                     },
                     "FunctionIdentifier" => child = call,
                     "Identical" => child = build_operator_tree::<DefaultNumericTypes>("same(7)").unwrap(),
